@@ -119,6 +119,11 @@ def failure_programs():
     # an exception whose instances are falsy; a CancelledError that the body raises on its own (BaseException)
     out += variants(rh, [[R({'B': ['raise:E0']})], [R({'C': ['raise:CE']})], [R({'B': ['raise:E0'], 'C': ['raise:CE']})]],
                     ['falsyexcB', 'cancelexcC', 'falsyB_cancelC'])
+    # a StopIteration escapes from a pooled body (asyncio cannot put it into a future as it is)
+    rh_t = P('rhombus_pool', [N('A'), N('B', I('p1', 'A'), mode='thread', attempts=2, use_default=True), N('C', I('p1', 'A'), mode='process'),
+                              N('D', I('p1', 'B'), I('p2', 'C'))], 'A', 'D', tags=['fail', 'retry', 'plain'])
+    out += variants(rh_t, [[R({'B': ['raise:SI', 'raise:SI']})], [R({'B': ['raise:SI', 'ok']})], [R({'C': ['raise:SI']})]],
+                    ['si_default', 'si_ok', 'si_process'])
     # a node's own timeout: TimeoutError is an Exception (and, since 3.11, asyncio.TimeoutError)
     out += variants(rh, [[R({'B': ['raise:ET']})], [R({'D': ['raise:ET']})]], ['timeoutB', 'timeoutD'])
     return out
@@ -160,6 +165,10 @@ def retry_programs():
     p = P('retry_base', [N('A'), N('B', I('p1', 'A'), attempts=3, delay=0, exceptions=['BaseException']), N('C', I('p1', 'A')),
                          N('D', I('p1', 'B'), I('p2', 'C'))], 'A', 'D', tags=['retry'])
     out += variants(p, [[R({'B': ['raise:B1', 'ok']})], [R({})], [R({'B': ['raise:B1', 'raise:E1', 'raise:B1']})]], ['b1_ok', 'ok', 'b1_e1_b1'])
+    # an empty exceptions setting: configured, and nothing matches it (no retry; the default still applies)
+    p = P('retry_none_matches', [N('A'), N('B', I('p1', 'A'), attempts=3, delay=0, exceptions=[]), N('C', I('p1', 'A')),
+                                 N('D', I('p1', 'B'), I('p2', 'C'))], 'A', 'D', tags=['retry'])
+    out += variants(p, [[R({'B': ['raise:E1', 'ok']})], [R({})]], ['e1', 'ok'])
     p = P('retry_two', [N('A'), N('B', I('p1', 'A'), attempts=2, delay=0.2), N('C', I('p1', 'A'), attempts=3, delay=0.1),
                         N('D', I('p1', 'B'), I('p2', 'C'))], 'A', 'D', tags=['retry', 'plain'])
     out += variants(p, [
@@ -464,6 +473,21 @@ def rec_programs():
     nodes = [N('A'), N('M', I('p1', 'A')), N('D', I('p1', 'M')), N('O', RC('p1', 'A', 'D', 3))]
     p = P('rec_from_input', nodes, 'A', 'O', tags=['rec'])
     out += variants(p, [[R(recreq={'D': 1})], [R(recreq={'D': 3})], [R(recreq={'D': 4})]], ['it1', 'it3', 'it4_exhaust'])
+    # the sub-graph is needed by the main path (Y) AND by a one-of candidate (C1); an inner node fails in the re-iteration.
+    # Bodies that do not suspend (inline) let the one-of own the re-iteration.
+    for tag, md in (('inl', 'inline'), ('coro', 'coro')):
+        nodes_t = [N('A', mode=md), N('S', I('p1', 'A'), mode=md), N('M', I('p1', 'S'), mode=md), N('D', I('p1', 'M'), mode=md),
+                   N('Y', RC('p1', 'S', 'D', 3), mode=md), N('C1', RC('p1', 'S', 'D', 3), mode=md), N('C2', I('p1', 'A'), mode=md),
+                   N('O', OO('p1', ['C1', 'C2']), I('p2', 'Y'), mode=md)]
+        out += variants(P('rec_two_scopes_fail_in_reiteration_' + tag, nodes_t, 'A', 'O', tags=['rec', 'oneof']),
+                        [[R(recreq={'D': 1}, plan_it={'M': [['ok'], ['raise:E1']]})], [R(recreq={'D': 1})]], ['m_it1', 'ok'])
+    # the destination is requested from two scopes (directly, and by the selected case of a switch) and runs out of
+    # iterations: exactly max_iterations re-iterations, then the default - also when the bodies do not suspend
+    for tag, md in (('inl', 'inline'), ('coro', 'coro')):
+        nodes_b = [N('A', mode=md), N('S', I('p1', 'A'), mode=md), N('D', I('p1', 'S'), use_default=True, mode=md), N('DEC', I('p1', 'A')),
+                   N('C', RC('p1', 'S', 'D', 1), mode=md), N('O', SW('p1', 'DEC', [('x', 'C')], name='bud'), RC('p2', 'S', 'D', 1), mode=md)]
+        out += variants(P('rec_budget_two_scopes_' + tag, nodes_b, 'A', 'O', tags=['rec', 'switch']),
+                        [[R({'DEC': ['label:x']}, recreq={'D': 5})], [R({'DEC': ['label:x']}, recreq={'D': 1})]], ['exhaust', 'it1'])
     # a single-node sub-graph: the polling node is its own start and destination
     nodes1 = [N('A'), N('D', I('p1', 'A')), N('O', RC('p1', 'D', 'D', 3))]
     out += variants(P('rec_single_node', nodes1, 'A', 'O', tags=['rec']),
